@@ -440,6 +440,7 @@ func init() {
 	}
 	delete(intrinsics, "internal/abi.Escape")
 	registerFloatIntrinsics()
+	registerSyncMapIntrinsics()
 }
 
 func (st *State) throwFatal(msg string) {
